@@ -175,7 +175,7 @@ pub trait MaybeDynSized: Pointee {
 //@extract multiboot2-common/src/tag.rs :: trait MaybeDynSized :: fn payload
 //@  novis
 //@  ret r
-//@  rewrite /&self\.as_bytes\(\)\[from\.\.\]/ => /vslice_from(*self.as_bytes(), from)/
+//@  rewrite /&self\.as_bytes\(\)\[\s*(\w+)\s*\.\.\s*\]/ => /vslice_from(*self.as_bytes(), \1)/
 //@  spec:
 //@        requires tag_wf_raw(self, Self::layout_size(ref_meta(self)), size_of::<Self::Header>() as nat),
 //@        ensures
@@ -188,8 +188,8 @@ pub trait MaybeDynSized: Pointee {
 //@  novis
 //@  ret r
 //@  rules R2b
-//@  rewrite /slice::from_raw_parts\(ptr\.cast::<u8>\(\), size\)/ => /bytes_from_raw_parts(ptr.cast::<u8>(), size)/
-//@  rewrite /BytesRef::try_from\(slice\)\.unwrap\(\)/ => /res_unwrap(BytesRef::try_from(slice))/
+//@  rewrite /slice::from_raw_parts\(\s*(\w+)\.cast::<u8>\(\)\s*,\s*(\w+)\s*\)/ => /bytes_from_raw_parts(\1.cast::<u8>(), \2)/
+//@  rewrite /BytesRef::try_from\((\w+)\)\s*\.unwrap\(\)/ => /res_unwrap(BytesRef::try_from(\1))/
 //@  spec:
 //@        requires tag_wf_raw(self, Self::layout_size(ref_meta(self)), size_of::<Self::Header>() as nat),
 //@        ensures
@@ -268,7 +268,7 @@ impl<H: Header> DynSizedStructure<H> {
 //@extract multiboot2-common/src/lib.rs :: impl<H: Header> DynSizedStructure<H> :: fn ref_from_bytes
 //@  ret r
 //@  rules R2
-//@  rewrite /deref_raw\(ptr\) \};\s*Ok\(reference\)/ => /deref_dst(ptr) };\n        Ok(reference)/
+//@  rewrite /deref_raw\((\w+)\)\s*\};\s*Ok\((\w+)\)/ => /deref_dst(\1) };\n        Ok(\2)/
 //@  prologue proof { let hh = decode::<H>(mem_at(slice_prov(bytes.bytes), slice_addr(bytes.bytes) as int, size_of::<H>() as int)); hh.lemma_hdr_layout(); lemma_round8_props(hh.declared_total()); }
 //@  spec:
 //@    requires
@@ -293,7 +293,7 @@ impl<H: Header> DynSizedStructure<H> {
 
 //@extract multiboot2-common/src/lib.rs :: impl<H: Header> DynSizedStructure<H> :: fn ref_from_slice
 //@  ret r
-//@  rewrite /BytesRef::<H>::try_from\(bytes\)\?/ => /match BytesRef::<H>::try_from(bytes) { Ok(b) => b, Err(e) => return Err(e) }/
+//@  rewrite /BytesRef::<H>::try_from\((\w+)\)\?/ => /match BytesRef::<H>::try_from(\1) { Ok(b) => b, Err(e) => return Err(e) }/
 //@  spec:
 //@    requires
 //@        slice_wf(bytes),
@@ -322,7 +322,7 @@ impl<H: Header> DynSizedStructure<H> {
 //@extract multiboot2-common/src/lib.rs :: impl<H: Header> DynSizedStructure<H> :: fn ref_from_ptr
 //@  ret r
 //@  rules R2
-//@  rewrite /slice::from_raw_parts\(ptr\.cast::<u8>\(\), hdr\.total_size\(\)\)/ => /bytes_from_raw_parts(ptr.cast::<u8>(), hdr.total_size())/
+//@  rewrite /slice::from_raw_parts\(\s*(\w+)\.cast::<u8>\(\)\s*,\s*(\w+)\.total_size\(\)\s*\)/ => /bytes_from_raw_parts(\1.cast::<u8>(), \2.total_size())/
 //@  prologue proof { let hh = decode::<H>(mem_at(nonnull_ptr(ptr)@.provenance, nonnull_ptr(ptr)@.addr as int, size_of::<H>() as int)); hh.lemma_hdr_layout(); }
 //@  spec:
 //@    requires
@@ -366,7 +366,7 @@ impl<H: Header> DynSizedStructure<H> {
 //@extract multiboot2-common/src/lib.rs :: impl<H: Header> DynSizedStructure<H> :: fn cast
 //@  ret r
 //@  rules R2,R2b
-//@  rewrite /deref_raw\(t_ptr\)/ => /deref_dst(t_ptr)/
+//@  rewrite /deref_raw\((\w+)\)/ => /deref_dst(\1)/
 //@  prologue proof { dyn_hdr(self).lemma_hdr_layout(); }
 //@  spec:
 //@    requires dyn_wf(self), panics_allowed(),
@@ -423,8 +423,8 @@ impl<'a, H: Header> TagIter<'a, H> {
 //@  ret r
 //@  rules R2
 //@  sigrewrite /Option<Self::Item>/ => /Option<&'a DynSizedStructure<H>>/
-//@  rewrite /&self\.buffer\[from\.\.to\]/ => /vslice(self.buffer, from, to)/
-//@  rewrite /DynSizedStructure::ref_from_slice\(slice\)\.unwrap\(\)/ => /res_unwrap(DynSizedStructure::ref_from_slice(slice))/
+//@  rewrite /&self\.buffer\[\s*(\w+)\s*\.\.\s*(\w+)\s*\]/ => /vslice(self.buffer, \1, \2)/
+//@  rewrite /DynSizedStructure::ref_from_slice\((\w+)\)\s*\.unwrap\(\)/ => /res_unwrap(DynSizedStructure::ref_from_slice(\1))/
 //@  prologue proof { old(self).hdr_at_off(old(self).next_tag_offset as int).lemma_hdr_layout(); lemma_round8_props(old(self).next_tag_offset + old(self).hdr_at_off(old(self).next_tag_offset as int).declared_total()); }
 //@  spec:
 //@    requires old(self).wf(), panics_allowed(), size_of::<H>() == 8,
